@@ -80,6 +80,11 @@ def sequence(job):
             c.stacked_data_mean = np.zeros(2) + uniq[0]
             c.train_inverse = fresh_spd()
             c.computed_covariance = fresh_spd()
+        if rng.random() < 0.3:
+            # a field that is NOT positive definite (a covariance floor can leave one behind): the relabel phase must
+            # score against it without touching it
+            uniq[0] += 1.0
+            m0.clusters[rng.randrange(K)].train_inverse = np.diag([1.0 + uniq[0] / 1000.0, -0.3])
     handles = [m0]
     clean = True                               # only phases / deep copies so far (plus assignment on fresh states)
     events = []
